@@ -4,6 +4,7 @@ CONSTANTS MaxRound = 3
  MaxHyps = 2
  N = 2
  EmitRejected = TRUE
+ ExtraInst = TRUE
  Focus = TRUE
 INVARIANT AllWellTyped
 
